@@ -1,8 +1,9 @@
 (* C05/Corr.v — helpers used only by the correspondence check (model vs implementation). *)
 From Coq Require Import ZArith QArith Qcanon List String Ascii Bool.
 From AV.lib Require Import QcInst.
-From AV.C06 Require Import Base Model.
-From AV.gen Require Import C06_Gen C05_Gen.
+From AV.C06 Require Import Base.
+From AV.C05 Require Import Units.
+From AV.gen Require Import C05_Units_Gen C05_Gen.
 From AV.C05 Require Import Base Model.
 Import ListNotations.
 Open Scope string_scope.
@@ -15,6 +16,9 @@ Definition SB (codes : list nat) : string := string_of_list_ascii (map ascii_of_
 Definition U (nm : string) : unit :=
   match find (fun u => String.eqb (uname u) nm) energy_units with Some u => u | None => no_unit end.
 Definition En (c : ecls) (x : Qc) (nm : string) : entry := mkE c x (U nm).
+
+(* what is assigned to Species.energy, unit by name *)
+Definition SE (c : ecls) (x : Qc) (nm : string) : supplied := SEnergy c x (U nm).
 
 Definition tol : Qc := qc 1 1000000000.   (* 1e-9 relative (absolute below 1) *)
 
@@ -69,8 +73,9 @@ Definition check_dres (r : reaction) (s : string) (d : dres) (e : dexp) : bool :
   match d, e with
   | DVal x u, XVal y un cl est =>
       close tol x y &&
-      (String.eqb cl "" || (String.eqb (uname u) un && String.eqb (fst (delta_meta r s)) cl &&
-                            Bool.eqb (snd (delta_meta r s)) est))
+      (* a bare number (no Energy object) is what sum([]) - sum(lhs) gives: only without products, non-barrier *)
+      ((String.eqb cl "" && negb (snd (parse s)) && match prods r with [] => true | _ => false end) ||
+       (String.eqb (uname u) un && String.eqb (fst (delta_meta r s)) cl && Bool.eqb (snd (delta_meta r s)) est))
   | DNone, XNone => true
   | DErr a, XErr b => String.eqb a b
   | _, _ => false
